@@ -100,7 +100,7 @@ def _histories(maxlen):
 
 
 @harness(P, quick=[dict(kind=k, hist=h) for k in ("da", "ds") for h in _histories(2)],
-         thorough=[dict(kind=k, hist=h) for k in ("da", "ds") for h in _histories(3) if len(h) == 3 and ("E" in h or "D" in h or "H" in h or "U" in h)], max_paths=500)
+         thorough=[dict(kind=k, hist=h) for k in ("da", "ds") for h in _histories(3) if len(h) == 3 and ("E" in h or "D" in h or "H" in h or "U" in h)], max_paths=500, obl_timeout=8000, witnesses=2)
 def history(env, kind, hist):
     """after the history, every observed operation equals the one on a fresh object with the same contents."""
     vals = env.array("E0", (len(F), len(D)), lo=0.0)
